@@ -54,6 +54,18 @@ generate_events) against a boring reference interpreter over the generator's own
                         event as that flow's start intent).  Demanded: both clauses - in particular the decision for
                         a history that contains the event is the same on the runtime that processed the event in
                         an earlier call and on a fresh runtime that is handed the same history.
+               expr   : the EXPRESSIONS of conditions and assignments (vf/props/c14_expr.py): after `$s = "a"`, every
+                        `if e` [else] for every truth-valued expression e with <= 2 [<= 3] operators over "a" | "b c" |
+                        $s | + | `x if b else y` | == | in | $c == 0/1 | not | or | and (quick: plus every `x or y` /
+                        `x and y` of two comparisons), every `$k = e` for every text-valued expression with 1-2 [1-3]
+                        operators (the value of $k is read from the context the host sees), `while e and $c < 2` /
+                        `while $c < 2 and e` for the one-operator conditions, and `if e` over the fields of an action
+                        result that is a JSON object (`$r.k == "a"`, `"a" in $r.l`, `len($r.l) == 2`, `$r.d.z == $s`,
+                        ..., and every or / and of two of them).  The reference value of an expression is Python's
+                        value of the same text.
+               api    : the conversation held through the public API, one LLMRails.generate_async call per user
+                        turn, carried in the returned state object or in the message list (vf/props/c14_state.py:
+                        world, programs, histories, oracle and signatures are described there).
   driver     plays RuntimeV1_0.generate_events by hand with the runtime's own methods: _compute_next_steps
              (history), append the decided events; after a StartInternalSystemAction the real
              _process_start_action with a registered stub action (returns the scripted result, records the
@@ -103,7 +115,9 @@ generate_events) against a boring reference interpreter over the generator's own
                RES_SIG      the last event is the result of `$v = execute a` for a variable that already had a value
                DYN_SIG      the history contains a start_flow event (`:unknown-to-another-instance` = used and fresh
                             runtime decide differently for it)
-             (the last two: `:step` = the decided step differs in whatever way, `:context`, `:exception`)
+               EXPR_SIG     expr:<if|while|set>:<outermost operator of the expression evaluated last>
+             (the last three: `:step` = the decided step differs in whatever way, `:context`, `:exception`)
+             group `api`: api:<carrier>:<since when the followed flow is followed>:<step|exception>
   replay     program text + script of user intents / action results; histories are rebuilt with plain calls.
              For a used-vs-fresh difference all earlier calls on the used runtime (decision, action execution,
              whole turn) are stored and repeated first, in order.
@@ -117,6 +131,8 @@ import pickle
 import signal
 import time
 from collections import deque
+
+from vf.props import c14_expr, c14_state
 
 PROP = "C14"
 
@@ -519,6 +535,8 @@ def label(main, subs, f2, layout=None, dyn=None):
                 out.append(["I", st[1], path])
             elif k == "A":
                 out.append(["A", st[1], st[2], st[3], path])
+            elif k == "E":
+                out.append(["E", st[1], st[2], path])
             elif k == "D":
                 out.append(["D", CALLS[fid], path])
             elif k in TERMINAL:
@@ -561,6 +579,8 @@ def cond_text(cond, loop=False):
     """Colang text of a condition (var, k): `$var == k` (if) / `$var < k` (while); k = "truthy" / "falsy":
     the variable itself / its negation"""
     var, k = cond
+    if var == "$":  # group `expr`: the text of the expression itself
+        return k
     if k == "truthy":
         return f"${var}"
     if k == "falsy":
@@ -571,6 +591,8 @@ def cond_text(cond, loop=False):
 def cond_value(cond, ctx, loop=False):
     """the same condition over the reference context (Python's truth value / comparison)"""
     var, k = cond
+    if var == "$":  # Python's truth value of Python's value of the same text
+        return bool(c14_expr.expr_value(k, ctx))
     if k == "truthy":
         return bool(ctx.get(var))
     if k == "falsy":
@@ -599,6 +621,8 @@ def _emit(block, col, lines, lay=None):
             lines.append(f"{pad}${st[1]} = ${st[1]} + 1")
         elif k == "A":
             lines.append(f"{pad}${st[1]} {st[2]} {st[3]}")
+        elif k == "E":
+            lines.append(f"{pad}${st[1]} = {st[2]}")
         elif k == "D":
             lines.append(f"{pad}do {st[1]}")
         elif k == "T":
@@ -691,13 +715,24 @@ class _StopFlow(Exception):
 
 class _Cell:
     """features of the current advance (a mutable cell: the generators keep a reference to it)"""
-    __slots__ = ("s",)
+    __slots__ = ("s", "x")
 
     def __init__(self):
         self.s = set()
+        self.x = []  # group `expr`: (statement kind, outermost operator) of the expressions evaluated, in order
 
     def add(self, x):
         self.s.add(x)
+
+    def note_expr(self, kind, text):
+        self.x.append(f"{kind}:{c14_expr.top_operator(text)}")
+        self.s.add("expr-" + kind)
+
+
+def _loop_cond(cond, ctx, feats):
+    if cond[0] == "$":
+        feats.note_expr("while", cond[1])
+    return cond_value(cond, ctx, True)
 
 
 def _exec(block, ctx, P, feats, fuel, frame):
@@ -755,12 +790,21 @@ def _exec(block, ctx, P, feats, fuel, frame):
             feats.add("aug-assign")
             if aug_compound(st[3]):
                 feats.add("aug-compound-rhs")
+        elif k == "E":
+            # `$v = e`: e is evaluated (Python's reading of the expression text), then assigned
+            ctx[st[1]] = c14_expr.expr_value(st[2], ctx)
+            if not (st[2].startswith('"') and st[2].count('"') == 2):
+                feats.note_expr("set", st[2])  # (one literal: an ordinary set)
+            else:
+                feats.add("set")
         elif k == "BR":
             raise _Break()
         elif k == "CT":
             raise _Continue()
         elif k == "IF":
             var, const = st[1]
+            if var == "$":
+                feats.note_expr("if", const)
             if st[3] and _step(P.get("layout"), "else") < _step(P.get("layout"), "then"):
                 feats.add("else-body-dedented")
             if cond_value(st[1], ctx):
@@ -776,7 +820,7 @@ def _exec(block, ctx, P, feats, fuel, frame):
         elif k == "WH":
             var, kk = st[1]
             broke = False
-            while cond_value(st[1], ctx, True):
+            while _loop_cond(st[1], ctx, feats):
                 fuel[0] -= 1
                 if fuel[0] < 0:
                     raise RefFuel()
@@ -866,6 +910,7 @@ def ref_run(P, ahist, tab=None):
     after_instant = None
     for ev in ahist:
         cell.s = set()
+        cell.x = []
         leave = None
         after_instant = instant
         if status == "unspec":
@@ -931,6 +976,7 @@ def ref_run(P, ahist, tab=None):
         "from": from_path,
         "to": to_path,
         "after_instant": after_instant,
+        "expr": cell.x[-1] if cell.x else None,  # the expression evaluated last before the checked decision
     }
 
 
@@ -1103,6 +1149,7 @@ class World:
         self.rt_used = make_runtime(self.cfg_used)
         self.plog = []
         self.tab = _intent_table(P)
+        self.vars = tuple(P.get("vars") or VARS)  # the context variables whose values are compared
         blocks_ = list(P["flows"].values()) + list(P["subs"].values())
         self.results = (0, 1) if any(reads_r(b) for b in blocks_) else (1,)
         if results is not None:
@@ -1197,7 +1244,7 @@ class World:
 
     def visible_context(self, hist):
         c = _LIB["F"].compute_context(hist)
-        return {v: c.get(v) for v in VARS}
+        return {v: c.get(v) for v in self.vars}
 
 
 def node_id(ahist, k):
@@ -1235,6 +1282,8 @@ def check_node(W, ahist, hist, r, k=0):
         cls = DYN_SIG
     elif "exec-result-overwrites" in r["last"]:
         cls = RES_SIG
+    if cls is None and r.get("expr"):
+        cls = EXPR_SIG + ":" + r["expr"]
     if nu != nf:
         du = decode(ru[1])[1] if ru[0] == "ok" else ("exception",)
         df = decode(rf[1])[1] if rf[0] == "ok" else ("exception",)
@@ -1259,7 +1308,7 @@ def check_node(W, ahist, hist, r, k=0):
         return None, viol, step
     if step != r["expect"]:
         k = kind_of(step, r["expect"])
-        if cls in (ELSE_DEDENT_SIG, AUG_SIG, RES_SIG):
+        if cls in (ELSE_DEDENT_SIG, AUG_SIG, RES_SIG) or (cls and cls.startswith(EXPR_SIG + ":")):
             sig = f"{cls}:step"  # whichever way the decided step differs (nothing / another one / one too many)
         elif cls:
             sig = f"{cls}:{'spurious-step' if k.startswith('spurious') else k}"
@@ -1270,9 +1319,9 @@ def check_node(W, ahist, hist, r, k=0):
         viol.append(("step", sig, f"expected {show_step(r['expect'])}, decided {show_step(step)}"))
         return None, viol, step
     vis = W.visible_context(hist + steps)
-    want = {v: r["ctx"].get(v) for v in VARS}
+    want = {v: r["ctx"].get(v) for v in W.vars}
     if vis != want:
-        diff = [v for v in VARS if vis[v] != want[v]]
+        diff = [v for v in W.vars if vis[v] != want[v]]
         viol.append(("context", f"{cls}:context" if cls else f"context:${'+$'.join(diff)}:{where}:{feats}",
                      f"step {show_step(step)} as expected, but the context after it is {vis}, "
                      f"structured-program value {want}"))
@@ -1296,6 +1345,9 @@ AUG_SIG = "augmented-assignment-with-operator-in-right-hand-side"
 RES_SIG = "action-result-assigned-to-variable-that-has-a-value"
 # input class: the history contains a start_flow event (flow id + flow body): the flow it defines is followed
 DYN_SIG = "flow-defined-by-start_flow-event"
+# input class: the statement executed last before the checked decision is an `if` / `while` / `$v = e` of group `expr`;
+# the signature continues with that statement kind and the outermost operator of its expression
+EXPR_SIG = "expr"
 # how often one decision call is repeated on the used runtime when it changes the state of that runtime
 PUMP_MAX = {"quick": 1500, "thorough": 6000}
 PUMP_NODES = 3  # per program: the first histories (BFS order) whose call changed the state
@@ -1318,7 +1370,7 @@ def _check_after_instant(W, ahist, hist, r, ru, rf):
     if bad or step != r["expect"]:
         return None, [("step", INSTANT_SIG, f"expected {show_step(r['expect'])}, decided {bad or show_step(step)}")], step
     vis = W.visible_context(hist + steps)
-    want = {v: r["ctx"].get(v) for v in VARS}
+    want = {v: r["ctx"].get(v) for v in W.vars}
     if vis != want:
         return None, [("context", INSTANT_SIG, f"step {show_step(step)} as expected, but the context after it is "
                        f"{vis}, structured-program value {want}")], step
@@ -1362,8 +1414,12 @@ NONTRIVIAL = ("if-then", "if-else", "if-skip", "skip-else", "while-iter", "while
 def explore(task):
     """BFS over all histories of one program within the bounds"""
     idx, main, subs, f2name, opts = task
+    if opts.get("family") == "api":
+        return c14_state.explore_api(task)
     max_user, max_dev, seed = opts["max_user"], opts["max_dev"], opts.get("seed", 0)
     P = label(main, subs, F2_VARIANTS[f2name], opts.get("layout"), opts.get("dyn"))
+    if opts.get("vars"):
+        P["vars"] = list(opts["vars"])
     order = ("f1", "s1", "s2", "f2") if seed % 2 == 0 else ("f2", "s2", "s1", "f1")
     W = World(P, order, opts.get("results"))
     max_acts = opts.get("max_acts")
@@ -1673,6 +1729,25 @@ def plan(tier):
     small = {"max_user": 3, "max_dev": 1, "max_zero": 1}
     big = {"max_user": 4, "max_dev": 2, "max_zero": 2}
     out = []
+    # the conversation held through LLMRails.generate_async, one call per user turn (vf/props/c14_state.py); first:
+    # these programs take longest
+    for carrier in c14_state.CARRIERS:
+        out.append(("api-" + carrier, "1-2" if tier == "quick" else "1-3",
+                    c14_state.state_programs((1, 2) if tier == "quick" else (1, 2, 3)), "two-turn-set",
+                    {"family": "api", "carrier": carrier, "max_user": 4 if tier == "quick" else 5, "max_dev": 1}))
+    # expressions: every condition / right-hand side with <= n operators (see vf/props/c14_expr.py)
+    X = c14_expr
+    ex = {"max_user": 1 if tier == "quick" else 2, "max_dev": 1, "max_zero": 99, "vars": ["c", "s", "k"]}
+    nb = (1, 2) if tier == "quick" else (1, 2, 3)
+    conds = [c for n in nb for c in X.b_exprs(n)]
+    if tier == "quick":  # of the conditions with three operators: every `x or y` / `x and y` of two comparisons
+        conds += [c for c in X.b_exprs(3) if c[1] in (X.P_OR, X.P_AND)]
+    out.append(("expr-if", "ops<=2 + or/and of two" if tier == "quick" else "ops<=3", X.cond_programs(conds), "simple", ex))
+    out.append(("expr-set", "ops 1-2" if tier == "quick" else "ops 1-3",
+                X.set_programs([e for n in nb for e in X.s_exprs(n)]), "simple", ex))
+    out.append(("expr-while", "ops 1 (+ and $c < 2)", X.while_programs(X.b_exprs(1)), "simple", ex))
+    out.append(("expr-field", "atoms + or/and of two", X.cond_programs(X.r_exprs(), attr=True), "simple",
+                dict(ex, vars=["c", "s", "r"], results=[X.R_VALUE])))
     # groups of their own (first, so that a time cap never cuts them): the same programs in other text layouts,
     # augmented assignments
     one = {"max_user": 3, "max_dev": 1, "max_zero": 1}
@@ -1727,6 +1802,7 @@ def run(rep, tier):
     from vf import par
 
     lib()
+    import vf.engines.world  # noqa  (group `api`: imported before the workers are forked)
     seed = rep.seed
     groups = plan(tier)
     ts = []
@@ -1742,13 +1818,21 @@ def run(rep, tier):
                                                      layout=pr[2] if len(pr) > 2 else None,
                                                      dyn=pr[3] if len(pr) > 3 else None,
                                                      pump_max=PUMP_MAX[tier])))
+    # a program of group `api` takes as long as a few hundred of the others: one per chunk of the pool, not eight
+    CH = 8
+    slow = [t for t in ts if t[4].get("family") == "api"]
+    rest = [t for t in ts if t[4].get("family") != "api"]
+    ts = []
+    for j, t in enumerate(slow):
+        ts += [t] + rest[(CH - 1) * j:(CH - 1) * (j + 1)]
+    ts += rest[(CH - 1) * len(slow):]
     budget = 50 if tier == "quick" else 17 * 60
     deadline = time.time() + budget
     done = {}
     by_sig = {}
     feats = {}
     n_done = 0
-    for res in par.pmap(explore, ts, chunksize=8, deadline=deadline):
+    for res in par.pmap(explore, ts, chunksize=CH, deadline=deadline):
         n_done += 1
         done[res["grammar"]] = done.get(res["grammar"], 0) + 1
         rep.merge_counts(res["counts"])
@@ -1775,7 +1859,8 @@ def run(rep, tier):
     rep.set("constructs_exercised_in_checked_decisions", feats)
     rep.set("distinct_nontrivial", rep.cov.get("nontrivial_histories", 0))
     rep.set("rule", "a history is non-trivial when the reference run took an if branch, skipped an else, "
-                    "iterated / re-checked / left a while loop or called / returned from a subflow before the checked decision")
+                    "iterated / re-checked / left a while loop or called / returned from a subflow before the checked decision; "
+                    "group api: also when the flow that decides the reply has been followed since two or more calls")
     rep.set("violation_classes", {s: {"histories": v["n"], "smallest": v["what"]} for s, v in sorted(by_sig.items())})
     rep.set("violation_classes_found", len(by_sig))
     rep.set("violation_classes_not_in_known_findings", new)
@@ -1783,6 +1868,10 @@ def run(rep, tier):
                        "repetitions_of_a_call_that_changes_the_instance_state": PUMP_MAX[tier],
                        "histories_repeated_per_program": PUMP_NODES,
                        "indentation_steps": [2, 4], "augmented_assignment_right_hand_sides": list(AUG_RHS),
+                       "expression_atoms": list(c14_expr.S_ATOMS) + list(c14_expr.C_ATOMS),
+                       "expression_value_of_$s": c14_expr.S_VALUE, "expression_action_result": c14_expr.R_VALUE,
+                       "expression_conditions_over_result_fields": [t for t, _ in c14_expr.r_atoms()],
+                       "api_carriers": list(c14_state.CARRIERS),
                        "per_group (max user turns / max unexpected turns / max actions returning 0 per history)": bounds,
                        "action_results": [0, 1], "grammars": GRAMMARS})
     rep.set("exhaustive", n_done == len(ts))
@@ -1813,6 +1902,16 @@ def run(rep, tier):
         "dyn group: a start_flow event (flow id + body text) is part of the event history (the v1 runtime produces "
         "and consumes it: generate_flow_from_instructions, generate_events); it is offered only while no flow is "
         "followed or left, the flow it defines is then a flow like the configured ones",
+        "expr groups: expressions are written with the parentheses Python's precedence needs and no others; their "
+        "reference value is Python's value of the same text (`$name` = reference value of the variable, a JSON object "
+        "read by attribute = its key; no key is the name of a dict method); list / dict literals are not part of the "
+        "v1 expression language (the evaluator rejects them), so lists and objects come from an action result",
+        "api groups: a real LLMRails with a scripted LLM (names the user's intent of the turn, answers the library's "
+        "fallback flow with a fixed step) and a registered fake embedding engine; one generate_async call per user turn; "
+        "the conversation is carried in the state object the previous call returned (first call {'events': []}) or in "
+        "the growing message list; judged: the bot steps of the user's flows in each reply; a history ends after a turn "
+        "in which the reference decides no bot step (the fallback flow's LLM step is not modelled); turns involving a "
+        "flow left earlier are not run",
         "state of the used instance = pickle of (runtime.flow_configs, config.flows, plain attributes of the runtime "
         "object, module-level numbers/containers of nemoguardrails.colang.v1_0.runtime.{sliding,flows,eval,utils,runtime}); "
         "state kept elsewhere (closures, function attributes) is only met by the blind repetitions",
@@ -1881,6 +1980,8 @@ def repeat_earlier_calls(W, earlier):
 
 
 def replay(rp):
+    if rp.get("family") == "api":
+        return c14_state.replay(rp)
     lib()
     P = rp["program"]
     W = World(P, tuple(rp.get("order") or ("f1", "s1", "s2", "f2")))
@@ -1934,7 +2035,7 @@ def replay(rp):
         r = ref_run(P, ahist, W.tab)
         ru, rf = W.eval_used(hist), W.eval_fresh(hist)
         if r["status"] == "strict":
-            exp = f"{show_step(r['expect'])}, context { {v: r['ctx'].get(v) for v in VARS} }"
+            exp = f"{show_step(r['expect'])}, context { {v: r['ctx'].get(v) for v in W.vars} }"
         else:
             exp = "(nothing demanded: a flow that was left earlier is involved)"
         print(f"  history of {len(hist)} events, last {_ev_brief(hist[-1])}")
@@ -1949,7 +2050,7 @@ def replay(rp):
             if step != r["expect"] or bad:
                 print("      ^^^ step differs")
                 break
-            if vis != {v: r["ctx"].get(v) for v in VARS}:
+            if vis != {v: r["ctx"].get(v) for v in W.vars}:
                 print(f"      ^^^ context visible to the host after this decision: {vis}")
                 break
         if not steps:
